@@ -246,6 +246,13 @@ static void range_cases(void)
 		{"", "2s/\\(a\\)\\(b\\)/\\2\\1/", "aa\nab\nba\naa\n"},
 		{"", "2s/(a)(b)/\\2\\1/", "aa\nba\nba\naa\n"},
 		{"", "%s/(b)|a/<\\1>/", "<>a\n<>b\n<b>a\n<>a\n"},
+		/* what is remembered from an earlier :s: a pattern without a replacement part replaces by nothing */
+		{"1s/a/X/", "2s/b", "Xa\na\nba\naa\n"},
+		{"1s/a/X/", "2s/b/", "Xa\na\nba\naa\n"},
+		{"1s/a/X/", "2s//", "Xa\nb\nba\naa\n"},
+		{"1s/a/X/", "2s//Y/", "Xa\nYb\nba\naa\n"},
+		{"1s/a/X/", "2s", "Xa\nXb\nba\naa\n"},
+		{"1s/b/X/", "3,4s//[\\0]/g", "aa\nab\n[b]a\naa\n"},
 	};
 	unsigned i;
 	ex_command("se noic");
